@@ -31,6 +31,13 @@ type NetOp struct {
 	FF      string `json:"ff,omitempty"` // "", "ff", "no-ff", "ff-only"
 	Skew    int    `json:"skew,omitempty"` // hours added to the node clock before the op (may be negative)
 	Other   string `json:"other,omitempty"`
+	Specs   []NetSpec `json:"specs,omitempty"` // fetch: explicit refspecs instead of the configured one
+}
+
+type NetSpec struct {
+	Branch string `json:"branch,omitempty"`
+	Tags   bool   `json:"tags,omitempty"` // refs/tags/*:refs/tags/*
+	Plus   bool   `json:"plus,omitempty"`
 }
 
 type NetPlan struct {
@@ -90,7 +97,7 @@ func genNetPlan(r *Rand, tier string, focus string, faults bool) NetPlan {
 			case 1:
 				p.Ops = append(p.Ops, NetOp{Node: "L", Op: "pull", Branch: b, FF: Pick(r, []string{"", "ff-only", "no-ff"})})
 			case 2:
-				p.Ops = append(p.Ops, NetOp{Node: "L", Op: "fetch", Force: r.Chance(0.3)})
+				p.Ops = append(p.Ops, NetOp{Node: "L", Op: "fetch", Force: r.Chance(0.2), Specs: genSpecs(r)})
 				p.Ops = append(p.Ops, NetOp{Node: "L", Op: "merge", Branch: b, Other: "origin/" + b, FF: Pick(r, []string{"", "ff-only", "no-ff"})})
 			default:
 				p.Ops = append(p.Ops, NetOp{Node: "L", Op: "fetch", Force: r.Chance(0.3)})
@@ -117,6 +124,9 @@ func genNetPlan(r *Rand, tier string, focus string, faults bool) NetPlan {
 			op = NetOp{Node: node, Op: "commit", Branch: b, Variant: r.Intn(6)}
 		case x < 55:
 			op = NetOp{Node: node, Op: "fetch", Force: r.Chance(0.15), Depth: Pick(r, []int{0, 0, 0, 1, 2})}
+			if r.Chance(0.4) {
+				op.Specs = genSpecs(r)
+			}
 		case x < 80:
 			op = NetOp{Node: node, Op: "push", Branch: b, Force: r.Chance(0.15), Plus: r.Chance(0.1)}
 		case x < 92:
@@ -134,6 +144,22 @@ func genNetPlan(r *Rand, tier string, focus string, faults bool) NetPlan {
 		}
 	}
 	return p
+}
+
+func genSpecs(r *Rand) []NetSpec {
+	var sp []NetSpec
+	for _, b := range netBranches {
+		if r.Chance(0.8) {
+			sp = append(sp, NetSpec{Branch: b, Plus: r.Chance(0.4)})
+		}
+	}
+	if r.Chance(0.5) {
+		sp = append(sp, NetSpec{Tags: true, Plus: r.Chance(0.2)})
+	}
+	if len(sp) == 0 {
+		sp = append(sp, NetSpec{Branch: "main"})
+	}
+	return sp
 }
 
 func init() {
@@ -305,6 +331,9 @@ func execNet(t *testing.T, raw json.RawMessage, res *Result, focus string) {
 			return
 		}
 		n.Objs.Monitor = MonitorC06
+		if focus == "C17" {
+			n.Objs.Monitor = MonitorLenient
+		}
 		nodes[name] = &netNode{Node: n}
 	}
 	R := nodes["R"]
@@ -445,6 +474,28 @@ func execNet(t *testing.T, raw json.RawMessage, res *Result, focus string) {
 			continue
 		case "fetch":
 			args = []string{"fetch", "origin"}
+			for _, sp := range op.Specs {
+				spec := ""
+				if sp.Tags {
+					spec = "refs/tags/*:refs/tags/*"
+				} else {
+					ok := false
+					for _, b := range netBranches {
+						if b == sp.Branch {
+							ok = true
+						}
+					}
+					if !ok {
+						res.Invalid("spec branch")
+						return
+					}
+					spec = fmt.Sprintf("refs/heads/%s:refs/remotes/origin/%s", sp.Branch, sp.Branch)
+				}
+				if sp.Plus {
+					spec = "+" + spec
+				}
+				args = append(args, spec)
+			}
 			if op.Force {
 				args = append(args, "--force")
 			}
@@ -538,16 +589,32 @@ func execNet(t *testing.T, raw json.RawMessage, res *Result, focus string) {
 				}
 				isTag := strings.HasPrefix(tr.Name, "tags/")
 				fetchConfForce := strings.HasPrefix(tr.Name, "remotes/") && (op.Op == "fetch" || op.Op == "pull")
+				tagForce := false
+				if op.Op == "fetch" && len(op.Specs) > 0 {
+					// explicit refspecs: only a '+' on the matching one forces
+					fetchConfForce = false
+					for _, sp := range op.Specs {
+						if sp.Plus && !sp.Tags && tr.Name == "remotes/origin/"+sp.Branch {
+							fetchConfForce = true
+						}
+						if sp.Plus && sp.Tags && isTag {
+							tagForce = true
+						}
+					}
+				}
+				if op.Op == "pull" {
+					fetchConfForce = false // pull passes an explicit refspec without '+'
+				}
 				if !anc[string(tr.Old)] {
 					diverged++
 					// `wrgl remote add` configures +refs/heads/*:refs/remotes/origin/* (forced refspec), like git
-					if !isForced && !fetchConfForce {
+					if !isForced && !fetchConfForce && !(isTag && tagForce) {
 						res.Violate("c10-non-ff-move", "%s (`wrgl %s`, no force): ref %s moved from %x to %x, which does not descend from it", when, strings.Join(args, " "), tr.Name, tr.Old, tr.New)
 						return
 					}
 					forced++
 				}
-				if isTag && !isForced {
+				if isTag && !isForced && !tagForce {
 					res.Violate("c10-tag-clobbered", "%s: existing tag %s changed from %x to %x without force", when, tr.Name, tr.Old, tr.New)
 					return
 				}
@@ -649,10 +716,14 @@ func execNet(t *testing.T, raw json.RawMessage, res *Result, focus string) {
 						if tr.New == nil || !strings.HasPrefix(tr.Name, "remotes/") && !strings.HasPrefix(tr.Name, "tags/") {
 							continue
 						}
+						if focus == "C17" {
+							continue // C17 asks for no panic / hang / exhaustion and intact invariants, not completeness
+						}
 						if c, d := checkHistoryComplete(n.Objs, R.Objs, tr.New, op.Depth, shallowBefore); c != "" {
-							if c == "table-missing-previously-shallow" && focus != "C09" {
-								res.probe("previously_shallow_not_completed", 1) // judged under C09 only
-								continue
+							if c == "table-missing" && strings.HasPrefix(tr.Name, "tags/") && op.Depth > 0 && !specsCoverTags(op.Specs) {
+								// an auto-followed tag (not covered by a refspec) is stored as soon as its
+								// commit exists, also when --depth left that commit shallow
+								c = "table-missing-autofollowed-tag"
 							}
 							res.Violate(pfx+"-fetch-"+c, "%s (`wrgl %s`, err=%v): ref %s -> %x: %s", when, strings.Join(args, " "), cr.Err, tr.Name, tr.New, d)
 							return
@@ -780,6 +851,15 @@ func execNet(t *testing.T, raw json.RawMessage, res *Result, focus string) {
 	case "C10":
 		res.Nontrivial = rejected+forced+diverged >= 1
 	}
+}
+
+func specsCoverTags(sp []NetSpec) bool {
+	for _, x := range sp {
+		if x.Tags {
+			return true
+		}
+	}
+	return false
 }
 
 // shallowOf: commits present without their table.
